@@ -1051,9 +1051,20 @@ func (bc *Blockchain) resetStateInternal(height uint32, stage stateChangeStage) 
 			keysCnt             = new(int)
 		)
 		for i := height + 1; i <= currHeight; i++ {
-			_, err := upperCache.DeleteBlock(bc.GetHeaderHash(i))
+			hash := bc.GetHeaderHash(i)
+			staleBlock, err := upperCache.GetBlock(hash)
+			if err != nil {
+				return fmt.Errorf("error while retrieving block %d: %w", i, err)
+			}
+			_, err = upperCache.DeleteBlock(hash)
 			if err != nil {
 				return fmt.Errorf("error while removing block %d: %w", i, err)
+			}
+			// Keep the header: if the process is interrupted, header hashes are restored
+			// from the stored headers on restart. Headers are purged at the next-to-next stage.
+			err = upperCache.StoreHeader(&staleBlock.Header)
+			if err != nil {
+				return fmt.Errorf("error while keeping header %d: %w", i, err)
 			}
 			blocksCnt++
 			if blocksCnt == persistBatchSize {
